@@ -39,6 +39,7 @@ def gen_cases(sd, tr):
             modes = [0, 2]
             extra = [1, 3, 4, 5]
             modes += g.sample(extra, 1)
+            if len(cases) % 5 == 0: modes.append(6)
             if n == 1: modes.append(7)
             if m == 1: modes.append(8)
             frac = (not TYPES[ty][3]) and TYPES[ty][5] > 0 and g.next() % 5 == 0   # non-integer data, judged by the bound
@@ -74,6 +75,13 @@ void run_case(long id, unsigned modes, uint64_t sa, uint64_t sb, uint64_t sc, in
     if (modes & (1u<<3)) { Tensor<T,M,N> C(C0); C += A % B; vh_line("R3", id, C.data(), M*N); }
     if (modes & (1u<<4)) { Tensor<T,M,N> C(C0); C -= A % B; vh_line("R4", id, C.data(), M*N); }
     if (modes & (1u<<5)) { Tensor<T,M,N> C(C0); C *= A % B; vh_line("R5", id, C.data(), M*N); }
+    // expression operands: the (tensor, expression), (expression, tensor), (expression, expression) overloads of matmul() and %
+    if (modes & (1u<<6)) {
+        { Tensor<T,M,N> C = matmul(A, B + T(0) * B); vh_line("R61", id, C.data(), M*N); }
+        { Tensor<T,M,N> C = matmul(A + T(0) * A, B); vh_line("R62", id, C.data(), M*N); }
+        { Tensor<T,M,N> C = matmul(A + T(0) * A, B + T(0) * B); vh_line("R63", id, C.data(), M*N); }
+        { Tensor<T,M,N> C = (A + T(0) * A) % (B + T(0) * B); vh_line("R64", id, C.data(), M*N); }
+    }
 }
 template<typename T, size_t M, size_t K>
 void run_mv(long id, uint64_t sa, uint64_t sb, long long scale = 1) {
@@ -106,7 +114,7 @@ def cpp_source(shard, with_vs):
             L.append('  vs_all<%s>("%s", std::make_index_sequence<80>{});' % (TYPES[ty][0], ty))
     for c in shard:
         cty = TYPES[c['ty']][0]
-        mask = sum(1 << m for m in c['modes'] if m <= 5)
+        mask = sum(1 << m for m in c['modes'] if m <= 6)
         bits, sh = frac_params(c['ty']) if c['frac'] else (0, 0)
         L.append('  run_case<%s,%d,%d,%d>(%d,%du,%d,%d,%d,%d,%d,%d,%dLL);' % (cty, c['M'], c['K'], c['N'], c['id'], mask, c['sa'], c['sb'], c['sc'], 1 if c['frac'] else 0, bits, sh, c.get('scale', 1)))
         if 7 in c['modes']: L.append('  run_mv<%s,%d,%d>(%d,%d,%d,%dLL);' % (cty, c['M'], c['K'], c['id'], c['sa'], c['sb'], c.get('scale', 1)))
@@ -179,7 +187,7 @@ def spec_mm(c, a, b):
     return [sum(a[i * k + kk] * b[kk * n + j] for kk in range(k)) for i in range(m) for j in range(n)]
 
 def combine(mode, c0, p, cplx):
-    if mode in (0, 1, 2, 7, 8): return p
+    if mode in (0, 1, 2, 7, 8, 61, 62, 63, 64): return p
     def add(x, y): return (x[0] + y[0], x[1] + y[1]) if cplx else x + y
     def sub(x, y): return (x[0] - y[0], x[1] - y[1]) if cplx else x - y
     def mul(x, y): return (x[0] * y[0] - x[1] * y[1], x[0] * y[1] + x[1] * y[0]) if cplx else x * y
@@ -288,7 +296,7 @@ def main():
             a, b, c0 = case_data(c); cplx = TYPES[c['ty']][3]
             mres = model[mk].get(c['id'])
             exact = None
-            for mode in c['modes']:
+            for mode in sum([[61, 62, 63, 64] if m == 6 else [m] for m in c['modes']], []):
                 toks = d['lines'].get((c['id'], mode))
                 if toks is None:
                     if not d['crash']:
@@ -310,7 +318,7 @@ def main():
                     prec = TYPES[c['ty']][5]
                     absum = [sum(abs(a[i * c['K'] + kk] * b[kk * c['N'] + j]) for kk in range(c['K'])) for i in range(c['M']) for j in range(c['N'])]
                     bnd = ulp_bound(c['K'], prec)
-                    if mode in (0, 1, 2):
+                    if mode in (0, 1, 2, 61, 62, 63, 64):
                         for idx in range(mn):
                             ex = prod[idx] * sc; err = abs(vals[idx] - ex) if not isinstance(vals[idx], str) else None
                             lim = bnd * absum[idx] * sc
